@@ -3201,13 +3201,11 @@ func (p *Posix) DeleteObject(ctx context.Context, input *s3.DeleteObjectInput) (
 			}
 
 			verifhook.Point("del.afterVersionCopy")
-			// Mark the object as a delete marker
-			err = p.meta.StoreAttribute(nil, bucket, object, deleteMarkerKey, []byte{})
-			if err != nil {
-				return nil, fmt.Errorf("set delete marker: %w", err)
-			}
-
-			verifhook.Point("del.afterMarker")
+			// The entry receives its new version id first and the delete
+			// marker flag last: in between (also after a crash) the
+			// archived version stays readable under its own id, whereas
+			// a marker that still carried the previous id made that
+			// version unreadable
 			versionId := nullVersionId
 			if p.isBucketVersioningEnabled(vStatus) {
 				// Generate & set a unique versionId for the delete marker
@@ -3229,6 +3227,13 @@ func (p *Posix) DeleteObject(ctx context.Context, input *s3.DeleteObjectInput) (
 				if err != nil && !errors.Is(err, meta.ErrNoSuchKey) {
 					return nil, fmt.Errorf("delete versionId: %w", err)
 				}
+			}
+
+			verifhook.Point("del.afterMarker")
+			// Mark the object as a delete marker
+			err = p.meta.StoreAttribute(nil, bucket, object, deleteMarkerKey, []byte{})
+			if err != nil {
+				return nil, fmt.Errorf("set delete marker: %w", err)
 			}
 
 			return &s3.DeleteObjectOutput{
